@@ -963,24 +963,27 @@ class Action:
         # If desired, specify a default value as e.g. ${XXX-value}
         # if they don't exist, ignore the entire line if marked optional; raise an error otherwise
         varRE = r"\$(\?)?{([^-}]*)(?:-([^}]+))?}"
-        mat = re.search(varRE, value)
-        if not mat:
-            return value
+        expanded = ""                   # value with each reference replaced by its own expansion
+        end = 0                         # end of the previous match
+        for mat in re.finditer(varRE, value):
+            optional, key, default = mat.groups()
 
-        optional, key, default = mat.groups()
+            if key in os.environ:
+                replacement = os.environ[key]
+            elif default:
+                replacement = default
+            elif optional:
+                if verbose > 0:
+                    print("$%s is not defined; skipping line containing %s" % (key, value), file=utils.stdinfo)
 
-        if key in os.environ:
-            return re.sub(varRE, os.environ[key], value)
-        elif default:
-            return re.sub(varRE, default, value)
+                return None
+            else:
+                raise RuntimeError("$%s is not defined; unable to expand %s" % (key, value))
 
-        if optional:
-            if verbose > 0:
-                print("$%s is not defined; skipping line containing %s" % (key, value), file=utils.stdinfo)
+            expanded += value[end:mat.start()] + replacement
+            end = mat.end()
 
-            return None
-        else:
-            raise RuntimeError("$%s is not defined; unable to expand %s" % (key, value))
+        return expanded + value[end:]
 
     #
     # Here are the real execute routines
